@@ -39,11 +39,8 @@ def block_frames(fmt, ch, sr):
 
 
 def pad_frames(fmt, ch):
-    """at most one pad frame where a container pads odd byte counts (C04): 1-byte samples in IFF-style containers"""
-    c, mj = fmt.codec, fmt.major
-    onebyte = c in (0x01, 0x05, 0x10, 0x11)
-    if mj == 0x02 and onebyte:      # AIFF pads SSND to an even length and derives frames from it
-        return 1
+    """at most one pad frame where a container pads odd byte counts (C04). No container needs the allowance any more:
+    AIFF used to count its SSND pad byte as a frame (KF-AIFF-ODD-PAD, repaired), WAV never did."""
     return 0
 
 
